@@ -54,7 +54,10 @@ class LGen(solvecheck.Gen):
         body = []
         for _ in range(r.randint(1, 2)):
             c = r.random()
-            if c < 0.4 or not use_idx:
+            if r.random() < 0.12:
+                # a preference over every element: copied per iteration as a soft constraint, dropped where it conflicts
+                body.append({"k": "soft", "e": self.elem_cmp(fs, ls, li, x, use_idx)})
+            elif c < 0.4 or not use_idx:
                 body.append({"k": "expr", "e": self.elem_cmp(fs, ls, li, x, use_idx)})
             elif c < 0.6:
                 # a condition over the index and constants (a literal, a non-random field): folded per iteration when
